@@ -649,14 +649,10 @@ func (e *Enc) ret(x *ssa.Return) {
 			e.contractError(name, err)
 			continue
 		}
-		rp := e.retPosts[en.Label]
-		if rp == nil {
-			rp = &retPost{label: en.Label, pos: x.Pos()}
-			e.retPosts[en.Label] = rp
-			e.retOrder = append(e.retOrder, en.Label)
-		}
-		rp.goals = append(rp.goals, imp(guard, t))
-		rp.extra = append(rp.extra, extra...)
+		e.retCount[en.Label]++
+		o := e.addObl("post", fmt.Sprintf("post:%s@ret%d", en.Label, e.retCount[en.Label]), en.Label, guard, t)
+		o.Extra = extra
+		o.Pos = e.w.fset.Position(x.Pos())
 	}
 }
 
